@@ -173,6 +173,20 @@ def _is_generator_expression_part(node, version):
     return False
 
 
+def _is_in_lambda_body(node):
+    """
+    A lambda is a scope of its own (other than its defaults), but not a
+    context of the error finder.
+    """
+    child = node
+    node = node.parent
+    while node is not None and node.type not in ('funcdef', 'classdef'):
+        if node.type == 'lambdef' and child is node.children[-1]:
+            return True
+        child, node = node, node.parent
+    return False
+
+
 def _remove_parens(atom):
     """
     Returns the inner part of an expression like `(foo)`. Also removes nested
@@ -603,7 +617,7 @@ class _AwaitOutsideAsync(SyntaxRule):
     message = "'await' outside async function"
 
     def is_issue(self, leaf):
-        if self._normalizer.context.is_async_funcdef():
+        if self._normalizer.context.is_async_funcdef() and not _is_in_lambda_body(leaf):
             return False
         # An await makes a generator expression asynchronous, which is fine.
         return not (self._normalizer.version >= (3, 7)
@@ -659,7 +673,8 @@ class _YieldFromCheck(SyntaxRule):
 
     def is_issue(self, leaf):
         return leaf.parent.type == 'yield_arg' \
-            and self._normalizer.context.is_async_funcdef()
+            and self._normalizer.context.is_async_funcdef() \
+            and not _is_in_lambda_body(leaf)
 
 
 @ErrorFinder.register_rule(type='name')
@@ -1264,7 +1279,8 @@ class _CompForRule(_CheckAssignmentRule):
             self._check_assignment(expr_list)
 
         if node.parent.children[0] == 'async' \
-                and not self._normalizer.context.is_async_funcdef():
+                and not (self._normalizer.context.is_async_funcdef()
+                         and not _is_in_lambda_body(node)):
             # Asynchronous generator expressions are fine everywhere.
             return not (self._normalizer.version >= (3, 7)
                         and _is_generator_expression_part(node, self._normalizer.version))
